@@ -166,4 +166,30 @@ inductive Reach (P : Params) : St → Prop
   | init (cap : Nat) : Reach P (mkInit cap)
   | step {s s' : St} (a : Act) : Reach P s → step P s a = some s' → Reach P s'
 
+/-! ### whose move it is, and the blocked makeCall (liveness: Props `C15_no_stuck`, `C15_eventually_completed`; driver op `enabled`) -/
+
+/-- the client's own steps, once a ReapTimeout / a blocking Call is under way: the completion loop of ReapTimeout
+(outside the mutex) and the blocked caller's receive from its `done` channel.  Everything else is a move of the
+environment: a new call, the queue consumer, a response arriving, the reaper's tick, a ReapTimeout being called,
+the counter hook. -/
+def Act.internal : Act → Bool
+  | .complete _ _ | .wake _ => true
+  | _ => false
+
+/-- the action is a critical section of `RpcClient.mu` -/
+def Act.mutex : Act → Bool
+  | .call _ _ | .dispatch _ _ | .sweep _ | .strip | .setCounter _ => true
+  | _ => false
+
+/-- THE ASSUMPTION MADE EXPLICIT.  `held = true`: some `makeCall` is blocked in `c.queue <- pkt` on the full
+request queue — it holds the mutex while it waits (DESIGN §10.2, a recorded observation).  Then no critical
+section can run (Dispatch, the reaper's sweep, stripExpired, other calls all wait for the mutex); what can still
+run is what needs no mutex: the queue consumer (`pop`), the completion loop of a ReapTimeout that has already
+stripped, and the wake-up of blocking callers.  `held = false`: the plain LTS. -/
+def stepHeld (P : Params) (held : Bool) (s : St) (a : Act) : Option St :=
+  if held && a.mutex then none else step P s a
+
+/-- `held` can only be true while the queue is full -/
+def HeldOk (held : Bool) (s : St) : Prop := held = true → s.cap ≤ s.queue.length
+
 end Fatchoy.C15
